@@ -787,6 +787,7 @@ Section Recv.
 
   Lemma decode_app t body p : decode_content t body = CApp p -> t = 23 /\ p = body.
   Proof.
+    clear snmask aopen hs_room.
     unfold decode_content. destruct (t =? 21) eqn:E1.
     { destruct body as [|l [|d [|x body]]]; discriminate. }
     destruct (t =? 23) eqn:E2; [intro H; inversion H; split; [lia|reflexivity]|].
@@ -798,6 +799,7 @@ Section Recv.
     deliveries (snd (dispatch W prot s e q t body)) =
     if (t =? 23) && negb (e =? 0) then [(body, e, q)] else [].
   Proof.
+    clear snmask aopen.
     unfold Rec13.dispatch. destruct (t =? 22) eqn:E22.
     { assert (t =? 23 = false) by lia. rewrite H. destruct (hs_ok hs_room body); reflexivity. }
     destruct (decode_content t body) as [p | level desc | | | ] eqn:Ed.
@@ -860,6 +862,7 @@ Section Recv.
   (* an unprotected (legacy header) record never delivers application data *)
   Theorem legacy_deliveries W lease s b : deliveries (snd (recv_legacy W lease s b)) = [].
   Proof.
+    clear snmask aopen.
     unfold Rec13.recv_legacy.
     destruct (length b <? 13)%nat; [reflexivity|].
     destruct (negb (legacy_version_ok b)); [reflexivity|].
@@ -876,6 +879,7 @@ Section Recv.
     snd (open_cands s h ct cs) = Some (body, t, q, e) ->
     In e cs /\ e <= r_epoch s /\ open_gen s h ct e = Some (body, t, q).
   Proof.
+    clear hs_room.
     induction cs as [|c cs IH]; intros body t q e H; [discriminate|].
     cbn [Rec13.open_cands] in H. destruct (r_epoch s <? c) eqn:E.
     - destruct (IH _ _ _ _ H) as (H1 & H2 & H3). split; [now right|auto].
@@ -886,6 +890,7 @@ Section Recv.
 
   Lemma mem_N_In e l : mem_N e l = true <-> In e l.
   Proof.
+    clear snmask aopen hs_room.
     unfold mem_N. rewrite existsb_exists. split.
     - intros (x & Hx & He). apply N.eqb_eq in He. now subst.
     - intro H. exists e. split; [exact H|apply N.eqb_refl].
@@ -893,6 +898,7 @@ Section Recv.
 
   Lemma read_candidates_spec s elow e : In e (read_candidates s elow) -> has_gen s e = true /\ e mod 4 = elow.
   Proof.
+    clear snmask aopen hs_room.
     unfold read_candidates, has_gen. rewrite in_app_iff. intros [H | H].
     - destruct (r_cur s) as [c|]; [|destruct H]. destruct (c mod 4 =? elow) eqn:E; [|destruct H].
       destruct H as [-> | []]. rewrite N.eqb_refl. split; [reflexivity|lia].
@@ -911,6 +917,7 @@ Section Recv.
       aopen e q (uh_marshal clear) ct = Some inner /\
       inner_unmarshal inner = Some (body, t) /\ inner_type_ok t = true.
   Proof.
+    clear hs_room.
     unfold auth_cipher. destruct (parse_crec s b) as [[h ct]|]; [|discriminate].
     unfold Rec13.open_record.
     destruct (open_cands s h ct (read_candidates s (u_elow h))) as [el [[[[body' t'] q'] e']|]] eqn:Eo.
@@ -1367,7 +1374,7 @@ Section Ideal.
       In (e, q, uh_marshal clear, ct, inner) log /\ inner_unmarshal inner = Some (p, 23).
   Proof.
     intro H. apply recv_record_deliver in H. destruct H as (Ha & He & _ & Hq).
-    apply (auth_cipher_spec snmask aopen hs_room) in Ha. destruct Ha as (h & ct & inner & Hp & Hg & Hm & Hle & Hrec & Hopen & Hin & _).
+    apply (auth_cipher_spec snmask aopen) in Ha. destruct Ha as (h & ct & inner & Hp & Hg & Hm & Hle & Hrec & Hopen & Hin & _).
     split; [exact He|]. split; [exact Hq|]. split; [exact Hg|]. split; [exact Hle|].
     exists h, ct, inner. cbn zeta in *. split; [exact Hp|]. split; [exact Hm|].
     split; [exact Hrec|]. split; [|exact Hin]. apply ideal. exact Hopen.
@@ -1391,7 +1398,7 @@ Section Ideal.
     intro H. apply in_marks in H. apply run_origin in H. destruct H as (lease & s' & r & H).
     apply in_marks in H. unfold Rec13.recv_record in H. destruct r as [|c r']; [destruct H|].
     destruct (is_ct13 c).
-    - right. apply recv_cipher_marks in H. destruct H as (body & t & H). apply (auth_cipher_spec snmask aopen hs_room) in H.
+    - right. apply recv_cipher_marks in H. destruct H as (body & t & H). apply (auth_cipher_spec snmask aopen) in H.
       destruct H as (h & ct & inner & _ & _ & _ & _ & _ & Hopen & _). eauto.
     - left. eapply recv_legacy_marks; eauto.
   Qed.
@@ -1402,7 +1409,7 @@ Section Ideal.
     exists e q a c i, In (e, q, a, c, i) log.
   Proof.
     intro H. apply effect_only_authentic in H. destruct H as (body & t & q & e & H).
-    apply (auth_cipher_spec snmask aopen hs_room) in H. destruct H as (h & ct & inner & _ & _ & _ & _ & _ & Hopen & _). eauto 10.
+    apply (auth_cipher_spec snmask aopen) in H. destruct H as (h & ct & inner & _ & _ & _ & _ & _ & Hopen & _). eauto 10.
   Qed.
 
   (* nothing sealed, nothing happens: with an empty log every ciphertext record is inert *)
@@ -1450,7 +1457,7 @@ Section Ideal.
     auth_cipher snmask aopen s b = Some (body, t, q, e) ->
     exists a c i, In (e, q, a, c, i) log /\ emitted_wire (e, q, a, c, i) b.
   Proof.
-    intros Hok Ha. apply (auth_cipher_spec snmask aopen hs_room) in Ha.
+    intros Hok Ha. apply (auth_cipher_spec snmask aopen) in Ha.
     destruct Ha as (h & ct & inner & Hp & _ & _ & _ & _ & Hopen & _). cbn zeta in Hopen.
     apply parse_crec_inv in Hp. destruct Hp as (n & Hu & Hc).
     pose proof (uh_unmarshal_inv n b h ct Hok Hu Hc) as Hb.
@@ -1712,6 +1719,7 @@ Section SendProofs.
   Lemma xor_bytes_inj a b1 b2 : length b1 = length a -> length b2 = length a ->
     xor_bytes a b1 = xor_bytes a b2 -> b1 = b2.
   Proof.
+    clear snmask aseal overhead.
     revert b1 b2; induction a as [|x a IH]; intros [|y1 b1] [|y2 b2] H1 H2 H; cbn in *; try lia; auto.
     inversion H. f_equal; [|apply IH; auto; lia].
     assert (N.lxor x (N.lxor x y1) = N.lxor x (N.lxor x y2)) by congruence.
@@ -1721,6 +1729,7 @@ Section SendProofs.
   Lemma nonce13_inj iv q1 q2 : length iv = 12%nat -> q1 < w64 -> q2 < w64 ->
     nonce13 iv q1 = nonce13 iv q2 -> q1 = q2.
   Proof.
+    clear snmask aseal overhead.
     intros Hl H1 H2 H. unfold nonce13 in H. apply app_inv_head in H.
     apply xor_bytes_inj in H; try (rewrite be_enc_length, skipn_length; lia).
     assert (Hd : be_dec (be_enc 8 q1) = be_dec (be_enc 8 q2)) by congruence.
@@ -1772,3 +1781,200 @@ Section SendProofs.
   Theorem commit_no_epoch_wrap st : s_wcur st = Some 65535 -> sstep st SCommitKeyUpdate = (st, []).
   Proof. intro H. cbn [Rec13.sstep]. rewrite H. reflexivity. Qed.
 End SendProofs.
+
+(* ------------------------------------------------------------------ candidate order; sender and receiver together *)
+Section Cands.
+  Variable snmask : N -> bytes -> N.
+  Variable aopen : N -> N -> bytes -> bytes -> option bytes.
+  Notation open_gen := (open_gen snmask aopen).
+  Notation open_cands := (open_cands snmask aopen).
+
+  Lemma open_cands_fst s h ct cs :
+    fst (open_cands s h ct cs) = existsb (fun e => e <=? r_epoch s) cs.
+  Proof.
+    induction cs as [|c cs IH]; [reflexivity|]. cbn [Rec13.open_cands existsb].
+    destruct (r_epoch s <? c) eqn:E.
+    - rewrite IH. assert (H : c <=? r_epoch s = false) by lia. now rewrite H.
+    - assert (H : c <=? r_epoch s = true) by lia. rewrite H.
+      destruct (open_gen s h ct c) as [[[b t] q]|]; reflexivity.
+  Qed.
+
+  (* all authorised candidates that open the record agree *)
+  Definition cands_agree (s : rstate) (h : uhdr) (ct : bytes) (cs : list N) : Prop :=
+    forall e e', In e cs -> In e' cs -> e <= r_epoch s -> e' <= r_epoch s ->
+                 open_gen s h ct e <> None -> open_gen s h ct e' <> None -> e = e'.
+
+  Lemma open_cands_complete s h ct : forall cs r e,
+    cands_agree s h ct cs -> In e cs -> e <= r_epoch s -> open_gen s h ct e = Some r ->
+    snd (open_cands s h ct cs) = Some (r, e).
+  Proof.
+    induction cs as [|c cs IH]; intros r e Hag Hin Hle Ho; [destruct Hin|].
+    cbn [Rec13.open_cands]. destruct (r_epoch s <? c) eqn:E.
+    - destruct Hin as [-> | Hin]; [lia|]. apply IH; auto.
+      intros a b Ha Hb. apply Hag; now right.
+    - destruct (open_gen s h ct c) as [[[b t] q]|] eqn:Ec.
+      + assert (c = e).
+        { apply Hag; auto; try lia; [now left|congruence|congruence]. }
+        subst c. rewrite Ho in Ec. inversion Ec; subst. reflexivity.
+      + cbn [snd]. destruct Hin as [-> | Hin]; [congruence|]. apply IH; auto.
+        intros a b Ha Hb. apply Hag; now right.
+  Qed.
+
+  (* the order in which ReadCandidates lists the old generations (a Go map iteration) is irrelevant
+     whenever at most one authorised generation opens the record *)
+  Theorem open_cands_perm s h ct cs1 cs2 : Permutation cs1 cs2 -> cands_agree s h ct cs1 ->
+    open_cands s h ct cs1 = open_cands s h ct cs2.
+  Proof.
+    intros Hp Hag.
+    assert (Hag2 : cands_agree s h ct cs2).
+    { intros a b Ha Hb. apply Hag; eapply Permutation_in; try apply Permutation_sym; eauto. }
+    apply injective_projections.
+    - rewrite !open_cands_fst.
+      destruct (existsb (fun e => e <=? r_epoch s) cs1) eqn:E1; destruct (existsb (fun e => e <=? r_epoch s) cs2) eqn:E2; auto.
+      + apply existsb_exists in E1. destruct E1 as (x & Hx & Hl).
+        assert (H2 : existsb (fun e => e <=? r_epoch s) cs2 = true)
+          by (apply existsb_exists; exists x; split; [eapply Permutation_in; eauto|exact Hl]).
+        congruence.
+      + apply existsb_exists in E2. destruct E2 as (x & Hx & Hl).
+        assert (H1 : existsb (fun e => e <=? r_epoch s) cs1 = true)
+          by (apply existsb_exists; exists x; split; [eapply Permutation_in; [apply Permutation_sym|]; eauto|exact Hl]).
+        congruence.
+    - destruct (snd (open_cands s h ct cs1)) as [[[[b t] q] e]|] eqn:E1.
+      + destruct (open_cands_spec snmask aopen s h ct cs1 b t q e E1) as (Hin & Hle & Ho).
+        symmetry. apply (open_cands_complete s h ct cs2 (b, t, q) e); auto. eapply Permutation_in; eauto.
+      + destruct (snd (open_cands s h ct cs2)) as [[[[b t] q] e]|] eqn:E2; [|reflexivity].
+        destruct (open_cands_spec snmask aopen s h ct cs2 b t q e E2) as (Hin & Hle & Ho).
+        assert (Hx : snd (open_cands s h ct cs1) = Some (b, t, q, e)).
+        { apply (open_cands_complete s h ct cs1 (b, t, q) e); auto.
+          eapply Permutation_in; [apply Permutation_sym; exact Hp|exact Hin]. }
+        congruence.
+  Qed.
+End Cands.
+
+Lemma read_candidates_complete s e : has_gen s e = true -> In e (read_candidates s (e mod 4)).
+Proof.
+  unfold has_gen, read_candidates. intro H. apply in_app_iff.
+  assert (Hold : mem_N e (r_old s) = true -> In e (filter (fun e0 => e0 mod 4 =? e mod 4) (r_old s))).
+  { intro Hm. apply filter_In. split; [now apply mem_N_In|apply N.eqb_refl]. }
+  destruct (r_cur s) as [c|]; [|right; auto].
+  apply orb_true_iff in H. destruct H as [H | H]; [|right; auto].
+  left. assert (c = e) by lia. subst c. rewrite N.eqb_refl. now left.
+Qed.
+
+(* ------------------------------------------------------------------ what the sender seals, the receiver opens *)
+
+Section Genuine.
+  Variable snmask : N -> bytes -> N.
+  Variable aopen : N -> N -> bytes -> bytes -> option bytes.
+  Variable aseal : N -> N -> bytes -> bytes -> bytes.
+  Variable overhead : N.
+  (* AEAD correctness and the length of its output *)
+  Hypothesis seal_open : forall e q a i, aopen e q a (aseal e q a i) = Some i.
+  Hypothesis seal_len : forall e q a i, len (aseal e q a i) = len i + overhead.
+
+  (* A record emitted by the send model authenticates at the receiver as exactly (content, type,
+     record number, generation), provided: the receiver expects the connection id the sender uses,
+     retains and has authorised the generation, the record number lies within half the 16-bit range
+     of the receiver's highest number for that epoch (RFC 9147 4.2.2 as coded), and the ciphertext
+     opens under no OTHER generation. *)
+  Theorem genuine_record_authenticates st e t body st' x s :
+    send_record snmask aseal overhead st e t body = (st', Some x) ->
+    inner_type_ok t = true ->
+    r_cid s = s_cid st ->
+    has_gen s e = true -> e <= r_epoch s ->
+    get_high e (r_high s) < 9223372036854775808 ->
+    get_high e (r_high s) + 1 < em_seq x + 32768 -> em_seq x <= get_high e (r_high s) + 1 + 32768 ->
+    (forall e', e' <> e -> forall q' a', aopen e' q' a' (em_ct x) = None) ->
+    auth_cipher snmask aopen s (em_wire x) = Some (body, t, em_seq x, e).
+  Proof.
+    intros Hsend Ht Hcid Hgen Hle Hh Hr1 Hr2 Hother.
+    unfold Rec13.send_record in Hsend. destruct (next_seq st e) as [st1 oq] eqn:En.
+    assert (Hc1 : s_cid st1 = s_cid st) by (pose proof (f_equal fst En) as Hf; cbn in Hf; subst st1; reflexivity).
+    destruct oq as [q|]; [|discriminate].
+    destruct (negb (has_wgen st1 e)); [discriminate|].
+    destruct (16384 <? len body); [discriminate|].
+    set (inner := inner_marshal body t 0) in *.
+    destruct (16640 <? len inner + overhead); [discriminate|].
+    set (clear := mk_uhdr (s_cid st1) (q mod 65536) true (len inner + overhead) true (e mod 4)) in *.
+    set (ct := aseal e q (uh_marshal clear) inner) in *.
+    destruct (negb (ct_len_ok (len ct))) eqn:Ecl; [discriminate|]. apply negb_false_iff in Ecl.
+    assert (Hx : x = mk_emitted e q (uh_marshal clear) ct inner
+                      (uh_marshal (apply_mask (mk_uhdr (s_cid st1) (q mod 65536) true (len ct) true (e mod 4)) (snmask e ct)) ++ ct))
+      by congruence.
+    clear Hsend. subst x. unfold em_seq, em_ct, em_wire in *. cbv beta iota in *.
+    assert (Hlen : len ct = len inner + overhead) by apply seal_len.
+    rewrite Hlen. fold clear.
+    set (m := snmask e ct). set (masked := apply_mask clear m).
+    assert (Hsok : uh_seq_ok clear) by (unfold uh_seq_ok, clear; cbn; apply N.mod_lt; lia).
+    assert (Hlt : len ct < 65536) by (unfold ct_len_ok in Ecl; lia).
+    assert (Hcidm : u_cid masked = s_cid st) by (unfold masked, apply_mask, clear; cbn; exact Hc1).
+    assert (Hflags : bit_c (hd 0 (uh_marshal masked ++ ct)) = negb (is_nil (s_cid st))).
+    { unfold uh_marshal. cbn [app hd]. unfold uh_flags. rewrite Hcidm.
+      unfold masked, apply_mask, clear. cbn [u_sbit u_lbit u_elow].
+      destruct (flags_bits (is_nil (s_cid st)) true true (e mod 4)) as (_ & H2 & _); [apply N.mod_lt; lia|].
+      cbn zeta in H2. exact H2. }
+    (* the receiver parses the record back *)
+    assert (Hparse : parse_crec s (uh_marshal masked ++ ct) = Some (masked, ct)).
+    { unfold parse_crec, cid_policy. rewrite Hflags, Hcid.
+      set (has := negb (is_nil (s_cid st))).
+      assert (Hcrec : crec_unmarshal (if has then length (s_cid st) else 0%nat) (uh_marshal masked ++ ct) = Some (masked, ct)).
+      { unfold crec_unmarshal. rewrite uh_marshal_unmarshal.
+        - assert (Hl1 : u_lbit masked = true) by reflexivity. assert (Hl2 : u_len masked = len ct) by (unfold masked, apply_mask, clear; cbn; lia).
+          rewrite Hl1, Hl2, N.eqb_refl, Ecl. reflexivity.
+        - split; [unfold masked, apply_mask, clear; cbn; apply N.mod_lt; lia|]. split.
+          + rewrite Hcidm. unfold has. destruct (s_cid st); [now left|right; cbn; split; lia].
+          + split; [apply apply_mask_seq_ok; exact Hsok|].
+            unfold masked, apply_mask, clear. cbn. lia. }
+      destruct (r_cidneg s); rewrite Hcrec;
+        (destruct has eqn:Eh; cbn [andb negb]; [rewrite Hcidm, bytes_eqb_refl; reflexivity|reflexivity]). }
+    unfold auth_cipher. rewrite Hparse.
+    (* generation e opens it at the sender's record number *)
+    assert (Hog : open_gen snmask aopen s masked ct e = Some (body, t, q)).
+    { unfold open_gen. fold m. unfold masked. rewrite apply_mask_invol by exact Hsok.
+      assert (Hq : reconstruct (u_seq clear) (u_sbit clear) (get_high e (r_high s)) = q).
+      { unfold clear. cbn [u_seq u_sbit]. apply (reconstruct_correct q true); unfold rwin; cbn; auto. }
+      rewrite Hq. unfold lowbits_ok, clear. cbn [u_sbit u_seq]. rewrite N.eqb_refl. cbn [negb].
+      unfold ct. rewrite seal_open. unfold inner. rewrite inner_roundtrip.
+      - now rewrite Ht.
+      - intro H0. subst t. discriminate Ht. }
+    unfold open_record.
+    assert (Helow : u_elow masked = e mod 4) by reflexivity. rewrite Helow.
+    assert (Hag : cands_agree snmask aopen s masked ct (read_candidates s (e mod 4))).
+    { intros a b Ha Hb _ _ Hoa Hob.
+      assert (Hone : forall e', open_gen snmask aopen s masked ct e' <> None -> e' = e).
+      { intros e' Hne. destruct (N.eq_dec e' e) as [|Hd]; [assumption|]. exfalso. apply Hne.
+        unfold open_gen. destruct (negb (lowbits_ok _ _)); [reflexivity|]. rewrite Hother by exact Hd. reflexivity. }
+      rewrite (Hone a Hoa), (Hone b Hob). reflexivity. }
+    pose proof (open_cands_complete snmask aopen s masked ct (read_candidates s (e mod 4)) (body, t, q) e Hag
+                  (read_candidates_complete s e Hgen) Hle Hog) as Hsnd.
+    destruct (Rec13.open_cands snmask aopen s masked ct (read_candidates s (e mod 4))) as [el r].
+    cbn [snd] in Hsnd. subst r. destruct el; reflexivity.
+  Qed.
+
+  (* C06 tolerance for DTLS 1.3: such a record is delivered exactly when the replay detector of its
+     epoch accepts its number *)
+  Corollary genuine_delivered_iff_window hs_room W lease st e body st' x s :
+    send_record snmask aseal overhead st e 23 body = (st', Some x) ->
+    r_cid s = s_cid st -> has_gen s e = true -> e <= r_epoch s -> e <> 0 -> has_prot s = true ->
+    get_high e (r_high s) < 9223372036854775808 ->
+    get_high e (r_high s) + 1 < em_seq x + 32768 -> em_seq x <= get_high e (r_high s) + 1 + 32768 ->
+    (forall e', e' <> e -> forall q' a', aopen e' q' a' (em_ct x) = None) ->
+    deliveries (snd (recv_cipher snmask aopen hs_room W lease s (em_wire x))) =
+    if check (fst (get_win W e (ensure_wins W maxseq64 e (r_wins s))))
+             (snd (get_win W e (ensure_wins W maxseq64 e (r_wins s)))) (em_seq x)
+    then [(body, e, em_seq x)] else [].
+  Proof.
+    intros Hsend Hcid Hgen Hle He Hp Hh Hr1 Hr2 Hother.
+    pose proof (genuine_record_authenticates st e 23 body st' x s Hsend eq_refl Hcid Hgen Hle Hh Hr1 Hr2 Hother) as Ha.
+    apply authentic_delivered_iff_window; auto.
+    pose proof (send_record_spec snmask aseal overhead st e 23 body) as Hs. cbn zeta in Hs.
+    rewrite Hsend in Hs. cbn [snd] in Hs. now destruct Hs as (_ & _ & _ & _ & _ & _ & _ & _ & Hq & _).
+  Qed.
+End Genuine.
+
+(* with a replay window of at most 32767 every record number the detector would accept from behind
+   lies within the reconstruction range (so does every number up to 32769 ahead) *)
+Lemma window_in_range (W : nat) (h q : N) : N.of_nat W <= 32767 ->
+  (q <= h /\ h - q < N.of_nat W) \/ (h < q /\ q <= h + 32769) ->
+  h + 1 < q + 32768 /\ q <= h + 1 + 32768.
+Proof. intros HW [[H1 H2] | [H1 H2]]; lia. Qed.
